@@ -4,6 +4,7 @@ From Coq Require Import ZifyN ZifyNat ZifyBool.
 From Model Require Import Bytes Prim Tables Cert Sig.
 From Gen Require Import Consts.
 From Proofs Require Import BytesLemmas PrimProofs Frame.
+From Proofs Require Export SigLen.
 Ltac Zify.zify_post_hook ::= Z.div_mod_to_equations.
 Open Scope Z_scope.
 Local Arguments Z.add : simpl never.
@@ -154,14 +155,6 @@ Proof.
 Qed.
 
 (* ---- signature ---- *)
-Lemma sig_length_bounds t n : sig_length t = Some n -> 0 < n <= 512.
-Proof.
-  unfold sig_length. destruct ((t <? 0) || (t >? 65535))%bool; [discriminate|].
-  unfold sw_lookup, Gen.Tables.sw_signature_getSignatureLength, Gen.Tables.sw_signature_getSignatureLength_default.
-  repeat match goal with
-  | |- context [memZ ?l t] => destruct (memZ l t)
-  end; intros H; inversion H; lia.
-Qed.
 Lemma read_signature_RoundTrip t : RoundTrip (fun x => read_signature x t) (fun s => Ok (sig_bytes s)).
 Proof.
   intros x v r H. unfold read_signature in H. destruct (sig_length t) as [n|] eqn:E; [|discriminate].
@@ -186,14 +179,4 @@ Proof.
   pose proof (sig_length_bounds _ _ E) as B.
   destruct (Z.of_nat (length x) <? n) eqn:E2; [discriminate|].
   rewrite slice_to_ok, slice_from_ok by lia. cbn. discriminate.
-Qed.
-(* every type code, not only 0..65535: unknown codes are errors, never sizes *)
-Lemma sig_length_unknown t : ~ In t [0;1;2;3;4;5;6;7;8;11] -> sig_length t = None.
-Proof.
-  intros H. unfold sig_length. destruct ((t <? 0) || (t >? 65535))%bool; [reflexivity|].
-  unfold sw_lookup, Gen.Tables.sw_signature_getSignatureLength, Gen.Tables.sw_signature_getSignatureLength_default.
-  cbn [memZ existsb].
-  repeat match goal with
-  | |- context [t =? ?k] => destruct (Z.eqb_spec t k); [subst; try (exfalso; apply H; cbn; tauto)|]
-  end; cbn; try reflexivity.
 Qed.
